@@ -80,6 +80,7 @@ package diff
 
 import (
 	"bytes"
+	"math"
 	"fmt"
 	"reflect"
 )
@@ -334,9 +335,20 @@ func Diff(old interface{}, new interface{}) interface{} {
 		}
 		return markReplaced(new)
 	default:
-		if old != new {
+		if old != new || zeroSignDiffers(old, new) {
 			return markReplaced(new)
 		}
 		return nil
 	}
+}
+
+// zeroSignDiffers reports whether old and new are the floats 0 and -0: equal
+// to ==, written as "0" and "-0".
+func zeroSignDiffers(old, new interface{}) bool {
+	a, ok := old.(float64)
+	if !ok || a != 0 {
+		return false
+	}
+	b, ok := new.(float64)
+	return ok && math.Signbit(a) != math.Signbit(b)
 }
